@@ -2,5 +2,5 @@
 import props_map
 
 CHECKS = {}
-for p in ("C01", "C02", "C05"):
+for p in ("C01", "C02", "C05", "C07", "C13", "C14"):
     CHECKS[p] = lambda prop, tier, seed, replay: props_map.run_property(prop, tier, seed, replay=replay)
